@@ -5,3 +5,4 @@ import OsyrisProofs.C06
 #print axioms Osyris.C06.C06_getIndex_aligned
 #print axioms Osyris.C06.C06_sortby_aligned
 #print axioms Osyris.C06.C06_scalar_gate_witness
+#print axioms Osyris.C06.rows_lt
